@@ -110,6 +110,7 @@ type Session struct {
 	Steps []*Step
 	// what the generator knows
 	Handles []uint64
+	Links   []uint64 // handles whose LOOKUP reply described a symbolic link
 	Origin  map[uint64][2]interface{} // handle -> (parent handle, name) it was obtained with
 	Tags    map[string]int
 }
@@ -160,6 +161,9 @@ func (s *Session) Do(advNs int64, c nfsx.Cred, r *nfsx.Req) *Step {
 	}
 	if o.FH != nil {
 		add(*o.FH)
+		if r.Proc == "LOOKUP" && len(o.Attrs) > 0 && o.Attrs[0] != nil && o.Attrs[0].Type == 5 {
+			s.Links = append(s.Links, *o.FH)
+		}
 		if r.Name != nil && r.Proc != "MNT" {
 			if s.Origin == nil {
 				s.Origin = map[uint64][2]interface{}{}
@@ -170,6 +174,13 @@ func (s *Session) Do(advNs int64, c nfsx.Cred, r *nfsx.Req) *Step {
 	for _, e := range o.Entries {
 		if e.FH != nil {
 			add(*e.FH)
+			if s.Origin == nil {
+				s.Origin = map[uint64][2]interface{}{}
+			}
+			s.Origin[*e.FH] = [2]interface{}{r.H, append([]byte{}, e.Name...)}
+			if e.Attr != nil && e.Attr.Type == 5 {
+				s.Links = append(s.Links, *e.FH)
+			}
 		}
 	}
 	s.Tags["op:"+r.Proc]++
